@@ -118,9 +118,7 @@ func checkStripped(in input, clearPos bool) string {
 	if err != nil {
 		return "skipped:not-valid-go"
 	}
-	if c24lib.HasExplicitEmptyStmt(sf) && in.origin != "corpus" {
-		return "known-class:explicit-empty-statement-dropped"
-	}
+	modEmpty := c24lib.HasExplicitEmptyStmt(sf) && in.origin != "corpus" // class C25-3: compared modulo EmptyStmt list elements
 	nparen := 0
 	for _, d := range sf.Decls {
 		nparen += stripTree(reflect.ValueOf(d), clearPos, "")
@@ -147,7 +145,7 @@ func checkStripped(in input, clearPos bool) string {
 		fail(in, k, "tree with "+what+" (what macro expansion produces): printed text does not parse - a needed parenthesis is missing", clip(err.Error(), 300)+"\n"+errLine(text1, err), nil)
 		return "FAIL:reparse"
 	}
-	if d := c24lib.Diff(sf.Decls, sf2.Decls, c24lib.CmpOpts{ModParens: true, NoPos: true}); d != "" {
+	if d := c24lib.Diff(sf.Decls, sf2.Decls, c24lib.CmpOpts{ModParens: true, NoPos: true, ModEmpty: modEmpty}); d != "" {
 		fail(in, k, "tree with "+what+" (what macro expansion produces): reparsed tree differs modulo ParenExpr - the printed text means something else", d, nil)
 		return "FAIL:tree"
 	}
